@@ -306,7 +306,16 @@ func (s *S) Check(pc []*term.T, goal *term.T, wantModel bool) (Result, term.Mode
 	cs := make([]*term.T, 0, len(rel)+1)
 	cs = append(cs, rel...)
 	cs = append(cs, goal)
-	res, mod := s.raw(cs, wantModel)
+	nonlin := goal.NonLin
+	for _, c := range rel {
+		if c.NonLin {
+			nonlin = true
+		}
+	}
+	// Non-linear queries (position arithmetic with a symbolic file-size limit): first the
+	// primary back end alone, then the relaxations below with it, and the slow fall-back
+	// solvers only at the end.
+	res, mod := s.rawMode(cs, wantModel, nonlin)
 	if res == Unknown && len(rel) > 0 {
 		// Relaxation: unsat of (subset of pc) ∧ goal implies unsat of pc ∧ goal. Solvers
 		// sometimes stall on a constraint that is irrelevant to the goal (e.g. a
@@ -319,7 +328,7 @@ func (s *S) Check(pc []*term.T, goal *term.T, wantModel bool) (Result, term.Mode
 			kept = append(kept, c)
 		}
 		if len(kept) < len(rel) {
-			if r, _ := s.raw(append(append([]*term.T{}, kept...), goal), false); r == Unsat {
+			if r, _ := s.rawMode(append(append([]*term.T{}, kept...), goal), false, nonlin); r == Unsat {
 				atomic.AddInt64(&Global.Relaxed, 1)
 				return Unsat, nil
 			}
@@ -330,12 +339,15 @@ func (s *S) Check(pc []*term.T, goal *term.T, wantModel bool) (Result, term.Mode
 				sub = append(sub, rel[:i]...)
 				sub = append(sub, rel[i+1:]...)
 				sub = append(sub, goal)
-				if r, _ := s.raw(sub, false); r == Unsat {
+				if r, _ := s.rawMode(sub, false, nonlin); r == Unsat {
 					atomic.AddInt64(&Global.Relaxed, 1)
 					return Unsat, nil
 				}
 			}
 		}
+	}
+	if res == Unknown && nonlin {
+		res, mod = s.rawMode(cs, wantModel, false)
 	}
 	return res, mod
 }
@@ -364,7 +376,9 @@ func (s *S) CheckAll(cs []*term.T, wantModel bool) (Result, term.Model) {
 	return res, merged
 }
 
-func (s *S) raw(cs []*term.T, wantModel bool) (Result, term.Model) {
+func (s *S) raw(cs []*term.T, wantModel bool) (Result, term.Model) { return s.rawMode(cs, wantModel, false) }
+
+func (s *S) rawMode(cs []*term.T, wantModel bool, primaryOnly bool) (Result, term.Model) {
 	atomic.AddInt64(&Global.Queries, 1)
 	// canonical order by printing sorted by ID keeps text deterministic per worker;
 	// the cache key is the text itself so it is worker independent as long as
@@ -392,6 +406,9 @@ func (s *S) raw(cs []*term.T, wantModel bool) (Result, term.Model) {
 		order = []*proc{s.cvc, s.z3, s.z3n}
 	} else {
 		order = []*proc{s.z3, s.z3n, s.cvc}
+	}
+	if primaryOnly {
+		order = order[:1]
 	}
 	var res Result
 	var mod term.Model
